@@ -57,6 +57,9 @@ TECHNIQUE = "Lean 4 proof (floor/ceil/trunc arithmetic over ℚ, list membership
 K_OVERFLOW = "C14/result-buffer-length-int-overflow"
 K_F32GRID = "C14/float32-cell-count-rounding/atom-outside-grid"
 K_TRICLINIC = "C14/periodic/skewed-triclinic-box/minimum-image-outside-27-replicas"
+K_HUGE_SCALAR = "C14/radius-over-cell-size-beyond-int32/scalar-OverflowError"
+K_HUGE_MULTI = "C14/radius-over-cell-size-beyond-int32/per-query-array-silently-wrong"
+K_WRAPPED = "C14/result-buffer-length-int-overflow/wrapped-positive-length-truncates-result"
 K_READONLY = "C14/spelling/read-only-array-rejected"
 K_SEL_STRIDED = "C14/spelling/non-contiguous-selection-mask-rejected"
 
@@ -463,7 +466,7 @@ def _query(np, cl, q, n, periodic, exact, S=0, wide=False, issues=None, rnd=None
         if q["rad_kind"] == "s":
             rad = int(q["rad"]) if rnd is None else _spell_scalar(np, int(q["rad"]), rnd, allow_bool=True)
         else:
-            rad = np.array(q["rad"], dtype=np.int64 if wide else np.int32)
+            rad = np.array(q["rad"], dtype=np.int64 if (wide or any(abs(x) >= 2 ** 31 for x in q["rad"])) else np.int32)
             if rad.size:
                 rad = _spell_array(np, rad, rnd, ints=True)
         fn, rname = cl.get_atoms_in_cells, "cell_radius"
@@ -740,6 +743,14 @@ def _geometry_disagreement(np, coords32, box, sel, q, rows, dist, rads, tag):
     return []
 
 
+def _max_cell_radius(spec, q):
+    """ceil(radius / cell_size) of the largest radius of an exact-stream query (cells: the cell radius itself)."""
+    if q["op"] == "adj":
+        return -(-q["thr"] // spec["cs"])
+    rs = [q["rad"]] if q["rad_kind"] == "s" else (q["rad"] or [0])
+    return max(rs) if q["op"] == "cells" else max(-(-r // spec["cs"]) for r in rs)
+
+
 def _overflow_possible(spec_n, periodic, cs, q):
     """Necessary condition for the C-int overflow of (2*cr+1)^3 * max_cell_length (max_cell_length <= #coords)."""
     if q["op"] == "adj":
@@ -760,6 +771,15 @@ def _oracle_body(case):
         return _oracle_ctor_reject(np, case)
     if case.get("kind") == "read-only":
         return _oracle_readonly(np, case)
+    if case.get("kind") == "wrapped-defect":
+        from biotite.structure import CellList
+        c = np.array(case["coords"], dtype=np.float32)
+        got = CellList(c, case["cs"]).get_atoms_in_cells(np.array(case["q"], dtype=np.float32), case["cell_radius"])
+        got = sorted(int(x) for x in got if x != -1)
+        if got != list(range(len(c))):
+            return [(K_WRAPPED, f"get_atoms_in_cells(q, {case['cell_radius']}) returned {len(got)} of the {len(c)} atoms that all lie "
+                     f"inside the window: the C int buffer length wrapped to a positive value smaller than the number of atoms")]
+        return []
     exact = "ops" in case and case.get("spec") is None
     if exact:
         spec, qs = _parse_ops(case["ops"])
@@ -791,7 +811,7 @@ def _oracle_body(case):
             try:
                 _query(np, cl, q, n, box is not None, exact, spec.get("S", 0))
                 v.append((f"C14/{q['op']}/malformed-accepted", f"malformed query accepted: {q}"))
-            except (ValueError, IndexError, TypeError):
+            except ValueError:
                 pass
             continue
         qq = dict(q, cs=cs_f)
@@ -810,7 +830,9 @@ def _oracle_body(case):
                     qf["rad"] = q["rad"] * sc if q["rad_kind"] == "s" else [r * sc for r in q["rad"]]
                 if "thr" in qf:
                     qf["thr"] = q["thr"] * sc
-            if (isinstance(e, ValueError) and "negative dimensions" in str(e)
+            if exact and isinstance(e, OverflowError) and q.get("rad_kind", "s") == "s" and _max_cell_radius(spec, q) >= 2 ** 31:
+                v.append((K_HUGE_SCALAR, f"{q['op']} raised {type(e).__name__}: {e} — radius / cell size >= 2^31 does not fit the int32 cell radius"))
+            elif (isinstance(e, ValueError) and "negative dimensions" in str(e)
                     and _overflow_possible(n, box is not None, cs_f, qf)):
                 v.append((K_OVERFLOW, f"{q['op']} raised {type(e).__name__}: {e} — the C int (2*cell_radius+1)^3*max_cell_length overflowed"))
             else:
@@ -843,6 +865,8 @@ def _oracle_body(case):
                 rmax = q["thr"] if q["op"] == "adj" else (q["rad"] if q["rad_kind"] == "s" else max(q["rad"] or [0]))
                 only_missing = len(rows) == len(want) and all(set(a) <= set(b) for a, b in zip(rows, want))
                 key = (K_TRICLINIC if (only_missing and _beyond_half_height(spec, rmax)) else f"C14/{tag}/not-exact")
+                if q["op"] != "adj" and q["rad_kind"] == "m" and _max_cell_radius(spec, q) >= 2 ** 31:
+                    key = K_HUGE_MULTI
                 v.append((key, f"{q}: query {i} returned {rows[i] if i < len(rows) else None}, "
                           f"exact minimum-image brute force {want[i] if i < len(want) else None} (box {spec['box']})"))
             if sup is not None:
@@ -850,7 +874,8 @@ def _oracle_body(case):
                 for i, (r, s) in enumerate(zip(rows, sup)):
                     if not set(s) <= set(r):
                         rmax = (q["rad"] if q["rad_kind"] == "s" else max(q["rad"] or [0])) * spec["cs"]
-                        v.append((K_TRICLINIC if _beyond_half_height(spec, rmax) else f"C14/{tag}/not-superset",
+                        v.append((K_HUGE_MULTI if (q["rad_kind"] == "m" and _max_cell_radius(spec, q) >= 2 ** 31) else
+                                  K_TRICLINIC if _beyond_half_height(spec, rmax) else f"C14/{tag}/not-superset",
                                   f"{q}: query {i} misses {sorted(set(s) - set(r))} (box {spec['box']})"))
                         break
                     if any(not selv[j] for j in r):
@@ -967,8 +992,12 @@ def _oracle_malformed(np, case):
                     v.append(("C14/new/caller-array-modified", f"the refused constructor call {op!r} modified the caller's {name}"))
         for kind_, msg_ in issues:
             v.append((f"C14/{w}/{kind_}", msg_ + f" (op {op!r}, answered {got})"))
-        if exp == "rej" and not got.startswith(("ERR:ValueError", "ERR:IndexError", "ERR:TypeError")):
-            v.append((f"C14/{w}/malformed-accepted", f"malformed op {op!r} answered {got!r}"))
+        if exp.startswith("rej"):
+            allowed = ("ERR:" + exp.split(":")[1],) if ":" in exp else ("ERR:ValueError",)
+            if got.startswith("ERR:") and not got.startswith(allowed):
+                v.append((f"C14/{w}/refused-with-undocumented-exception", f"malformed op {op!r}: {got!r}, documented {allowed[0]}"))
+            elif not got.startswith("ERR:"):
+                v.append((f"C14/{w}/malformed-accepted", f"malformed op {op!r} answered {got!r}"))
         if exp == "ok" and not got.startswith("ok"):
             v.append((f"C14/{w}/valid-rejected", f"valid op {op!r} answered {got!r}"))
         if exp == "ok" and w != "new":
@@ -1011,8 +1040,11 @@ def _oracle_ctor_reject(np, case):
             struc.CellList(c[:, :2], 2.0)
         else:
             return []
-    except (ValueError, TypeError, IndexError):
-        return []
+    except Exception as e:  # noqa: BLE001
+        want = TypeError if what == "stack" else ValueError
+        if isinstance(e, want):
+            return []
+        return [(f"C14/new/refused-with-undocumented-exception/{what}", f"{what}: {type(e).__name__}: {e} (documented {want.__name__})")]
     return [(f"C14/new/malformed-accepted/{what}", f"constructor accepted {what} input")]
 
 
@@ -1398,7 +1430,12 @@ def _cap_radius(r, cs, mcl, m):
 
 def _malformed_exact(rng):
     c = _malformed_exact0(rng)
-    c["expect"] = ["ok" if (op.startswith("new") and i > 0 or " _ " in op and not op.startswith("new")) else "rej"
+    if "expect" in c:
+        return c
+    c["expect"] = ["ok" if (op.startswith("new") and i > 0 or " _ " in op and not op.startswith("new")) else
+                   # numpy's boolean-mask length check is an IndexError, everything else a ValueError
+                   ("rej:IndexError" if (op.startswith("new") and op.split()[4] not in ("-", "_")
+                                         and len(op.split()[4]) != len(op.split()[5].split(",")) // 3) else "rej:ValueError")
                    for i, op in enumerate(c["ops"])]
     if len(c["ops"]) > 1:
         c["expect"][0] = "ok"
@@ -1472,6 +1509,69 @@ def _overflow_case(rng):
     ok = f"atoms idx s {_ints(coords[0])} s:{rng.randint(0, 5)}"
     return {"kind": "overflow", "ops": [f"new 0 1 - - {_ints(x for c in coords for x in c)}", ok,
                                         f"atoms idx s {_ints(coords[0])} s:{cr}", ok]}
+
+
+# ---------------------------------------------------------------- generator: regions the other streams stay out of
+def _wrapped_ok_radii():
+    """cell radii whose C-int buffer length (2r+1)^3 (max_cell_length 1) wraps to a still sufficient positive value"""
+    if "wrapped" not in _LAST:
+        out = []
+        for cr in range(813, 2048):
+            T = (2 * cr + 1) ** 3
+            L = ((T + 2 ** 31) % 2 ** 32) - 2 ** 31
+            if T >= 2 ** 31 and 64 <= L <= 12_000_000:
+                out.append(cr)
+        _LAST["wrapped"] = out
+    return _LAST["wrapped"]
+
+
+def _region_case(rng):
+    """Inputs beyond the size caps of the ordinary streams (audit 6): huge radius / cell size ratios (int32 cell radius),
+    buffer lengths that wrap to a positive value, windows of ~10^7 cells, grids of ~10^7 cells, mirrored / singular boxes."""
+    t = rng.choice(["huge", "huge", "wrapped-ok", "large-window", "many-cells", "neg-diag", "singular", "singular"])
+    if t == "huge":
+        coords = [[rng.randint(0, 3), rng.randint(0, 1), 0] for _ in range(rng.randint(1, 4))]
+        q = _ints(coords[0])
+        new = f"new 0 1 - - {_ints(x for c in coords for x in c)}"
+        big = rng.choice([2 ** 31, 2 ** 32, 2 ** 33, 3 * 2 ** 30 + 2 ** 31])
+        ops = [new, f"atoms idx m {q},{q} m:{big},{rng.randint(0, 3)}", f"atoms {rng.choice(['idx', 'mask'])} s {q} s:{big}",
+               f"atoms idx m {q},{q} s:{big}", f"cells idx m {q},{q} m:{rng.choice([2 ** 31, 2 ** 32 + 1, 2 ** 33])},1",
+               f"cells mask s {q} s:{2 ** 31}", f"atoms idx s {q} s:{rng.randint(0, 4)}"]
+        return {"kind": "region-huge", "ops": ops}
+    if t == "wrapped-ok":
+        coords = [[i * rng.randint(1, 3), rng.randint(0, 2) * 2, 0] for i in range(rng.randint(1, 5))]
+        cr = rng.choice(_wrapped_ok_radii())
+        _d, mcl, _mn, _mx = _grid_stats(coords, None, 1, None)
+        if mcl != 1:
+            coords = [[2 * i, 0, 0] for i in range(len(coords))]
+        q = _ints(coords[-1])
+        return {"kind": "region-wrapped-ok", "ops": [f"new 0 1 - - {_ints(x for c in coords for x in c)}",
+                                                     f"atoms {rng.choice(['idx', 'mask'])} s {q} s:{cr}", f"cells idx s {q} s:{cr}"]}
+    if t == "large-window":
+        coords = [[2 * i, 3 * (i % 2), 0] for i in range(rng.randint(1, 6))]
+        cr = rng.randint(80, 140)
+        q = _ints([rng.randint(-50, 50), 0, 0])
+        return {"kind": "region-large-window", "ops": [f"new 0 1 - - {_ints(x for c in coords for x in c)}",
+                                                       f"atoms idx s {q} s:{cr}", f"cells mask s {q} s:{cr}"]}
+    if t == "many-cells":
+        w = rng.randint(90, 130)
+        coords = [[rng.randint(-w, w) for _ in range(3)] for _ in range(rng.randint(2, 6))] + [[-w, -w, -w], [w, w, w]]
+        q = coords[rng.randrange(len(coords))]
+        return {"kind": "region-many-cells", "ops": [f"new 0 1 - - {_ints(x for c in coords for x in c)}",
+                                                     f"atoms idx m {_ints(q)},{_ints([w, w, w])} m:{rng.randint(0, 40)},2", f"adj {rng.randint(0, 30)}"]}
+    coords = [[rng.randint(-20, 20) for _ in range(3)] for _ in range(rng.randint(1, 5))]
+    flat = _ints(x for c in coords for x in c)
+    if t == "neg-diag":
+        L = [rng.choice([-1, 1]) * 2 ** rng.randint(2, 4) for _ in range(3)]
+        if all(x > 0 for x in L):
+            L[rng.randrange(3)] *= -1
+        return {"kind": "exact-periodic", "ops": [f"new 0 2 {_ints(L)} - {flat}", f"atoms idx s {_ints(coords[0])} s:{rng.randint(0, 9)}",
+                                                  f"adj {rng.randint(0, 9)}", f"cells mask s {_ints(coords[-1])} s:1"]}
+    # singular boxes: numpy.linalg.inv refuses (LinAlgError) before anything else is looked at
+    box = rng.choice(["0,8,8", "8,0,0,8,0,0,0,0,8", "8,4,0,4,2,0,0,0,8", "0,0,0,0,0,0,0,0,0", "4,0,0,0,4,0,4,4,0"])
+    c = {"kind": "malformed", "ops": [f"new 0 2 {box} - {flat}", f"new 0 2 8,8,8 - {flat}", f"atoms idx s {_ints(coords[0])} s:3"],
+         "expect": ["rej:LinAlgError", "ok", "ok"]}
+    return c
 
 
 # ---------------------------------------------------------------- generator: float stream
@@ -1745,6 +1845,8 @@ def _cases(rng, tier):
         yield _spelled(rng, _float_case(rng))
     for i in range(200 if tier == "quick" else 3000):
         yield _spelled(rng, _float_geom_case(rng))
+    for i in range(14 if tier == "quick" else 150):
+        yield _region_case(rng)
     for what in ("stack", "nan-box", "own-box-shape", "nan-coord", "inf-coord-selected", "bad-shape"):
         yield {"kind": "ctor-reject", "what": what, "coords": [[rng.randint(-9, 9) for _ in range(3)] for _ in range(rng.randint(1, 4))]}
 
